@@ -877,7 +877,7 @@ async fn build_authoritative_response(
                         salt,
                         iterations,
                         opt_out: _,
-                    }) => handler
+                    }) if has_wildcard_match => handler
                         .nsec3_records(
                             Nsec3QueryInfo {
                                 qname: query.name(),
